@@ -117,7 +117,7 @@ ASSUMPTIONS = [
     'was never shut down count as alive; a watchdog expiry of the run itself is '
     'inconclusive; sinks of release cases are not judged',
 ]
-REQUIRED = ['skip_on_checks', 'skip_off_checks', 'cause_chain_checks',
+REQUIRED = ['noop_stage_checks', 'skip_on_checks', 'skip_off_checks', 'cause_chain_checks',
             'next_after_error_checks', 'sink_closed_checks', 'thread_baseline_checks',
             'prefix_checks', 'selftest_checks',
             'fail_apply', 'fail_assign', 'fail_filter', 'fail_sink', 'fail_source',
@@ -154,6 +154,9 @@ def plan(tier, seed):
   from vlib import c12_ext
   # the families of vlib/c12_ext.py first: their `release` chunks end with a bounded wait
   specs = [{'mode': 'selftest'}] + c12_ext.plan(tier, seed)
+  for j in range(2 if tier == 'quick' else 8):
+    specs.append({'mode': 'noopstage', 'rseed': seed, 'index': j,
+                  'count': 60 if tier == 'quick' else 600})
   for c in range(chunks):
     specs.append({'mode': 'scenarios', 'rseed': seed, 'lo': c * per, 'hi': (c + 1) * per})
   return specs
@@ -776,7 +779,124 @@ def run_scenario(ctx, rseed, sidx, tier):
   check_case(ctx, c)
 
 
+# ---------------------------------------------------------------------------
+# Stages without an operator in front of a failing source
+# ---------------------------------------------------------------------------
+
+
+class _BadRows:
+  """Random access source: the rows in `bad` cannot be read."""
+
+  def __init__(self, n, bad):
+    self._n, self._bad = n, set(bad)
+
+  def __len__(self):
+    return self._n
+
+  def __getitem__(self, i):
+    if isinstance(i, slice):
+      return [self[j] for j in range(*i.indices(self._n))]
+    if i in self._bad:
+      raise ValueError(f'unreadable row {i}')
+    return i
+
+
+class _Collect:
+
+  def create_state(self):
+    return []
+
+  def update_state(self, state, x):
+    return state + [x]
+
+  def merge_states(self, states):
+    return [x for st in states for x in st]
+
+  def get_result(self, state):
+    return sorted(state)
+
+
+def _times10(x):
+  return x * 10
+
+
+def check_noop_stage_case(ctx, case):
+  """The stage that owns the data source has no operator (source -> aggregate, or a
+  bare `read` stage chained to a `proc` stage): skipping still drops only the
+  unreadable rows, with and without worker threads on the reading stage."""
+  import threading as _th
+  from ml_metrics._src.chainables import io, transform
+  T = transform.TreeTransform
+  n, bad, nt, layout = case['n'], case['bad'], case['threads'], case['layout']
+  ctx.case(('noopstage', n, tuple(bad), nt, layout), bool(bad))
+  ctx.count('noop_stage_checks')
+  good = [i for i in range(n) if i not in bad]
+
+  def build():
+    ds = io.SequenceDataSource(_BadRows(n, bad))
+    if layout == 'agg_only':
+      return T.new(name='read', num_threads=nt).data_source(ds).aggregate(
+          fn=_Collect(), output_keys='seen'), good, good
+    read = T.new(name='read', num_threads=nt).data_source(ds)
+    proc = T.new(name='proc').apply(fn=_times10).aggregate(fn=_Collect(), output_keys='seen')
+    return read.chain(proc), [g * 10 for g in good], [g * 10 for g in good]
+
+  box = {}
+
+  def run():
+    p, want_out, want_agg = build()
+    it = p.make().iterate(ignore_error=True)
+    box['it'] = it
+    outs = list(it)
+    box['res'] = (sorted(outs), want_out, it.agg_result, want_agg)
+
+  for attempt in (0, 1):
+    box.clear()
+    t = _th.Thread(target=_catch, args=(run, box), daemon=True, name='c12-noop')
+    t.start()
+    t.join(15)
+    if not t.is_alive():
+      break
+    try:
+      box['it'].maybe_stop()
+    except Exception:  # pylint: disable=broad-exception-caught
+      pass
+  else:
+    ctx.violation('no_completion_within_watchdog', case, {'attempts': 2, 'watchdog_s': 15},
+                  mechanism='noop-stage-source-error:hang:' + ('threads' if nt else 'inline'))
+    return
+  if 'error' in box:
+    ctx.violation('raised_while_skipping', case, {'error': box['error'][:300]},
+                  mechanism='noop-stage-source-error:raised:' + layout)
+    return
+  outs, want_out, agg, want_agg = box['res']
+  if outs != sorted(want_out) or dict(agg or {}).get('seen') != sorted(want_agg):
+    ctx.violation('stream_differs', case,
+                  {'got': outs[:30], 'want': sorted(want_out)[:30], 'agg': repr(agg)[:200]},
+                  mechanism='noop-stage-source-error:rows-lost:' + layout)
+
+
+def _catch(fn, box):
+  try:
+    fn()
+  except Exception as e:  # pylint: disable=broad-exception-caught
+    box['error'] = f'{type(e).__name__}: {e}'
+
+
+def run_noop_stage_chunk(ctx, spec):
+  rng = random.Random(spec['rseed'] * 2654435761 % (1 << 31) + spec['index'])
+  for _ in range(spec['count']):
+    n = rng.randint(1, 9)
+    nbad = rng.choice([0, 1, 1, 2])
+    check_noop_stage_case(ctx, {
+        'family': 'noopstage', 'n': n, 'bad': sorted(rng.sample(range(n), min(nbad, n))),
+        'threads': rng.choice([0, 0, 1, 2]), 'layout': rng.choice(['agg_only', 'read_proc'])})
+
+
 def run_chunk(ctx, spec):
+  if spec['mode'] == 'noopstage':
+    run_noop_stage_chunk(ctx, spec)
+    return
   if spec['mode'] == 'selftest':
     from vlib import pipeline_selftest
     from vlib.props import C08
@@ -795,6 +915,8 @@ def run_case(ctx, case):
     from vlib import pipeline_selftest
     from vlib.props import C08
     pipeline_selftest.run(ctx, C08.same, only=case['selftest'])
+  elif case.get('family') == 'noopstage':
+    check_noop_stage_case(ctx, case)
   elif case.get('family') in ('release', 'tsink'):
     from vlib import c12_ext
     c12_ext.run_case(ctx, case)
